@@ -1953,6 +1953,8 @@ def run_gpclone(spec, o):
             what += ":gp_model_random_state_not_restored"
         elif pt.get("restored_config_was_excluded_by_internal_random_searcher"):
             what += ":repeats_config_excluded_only_by_internal_random_searcher"
+        elif pt.get("rc_left") == 0 and what.startswith("raised:"):
+            what += ":restrict_configurations_used_up"
         o.violate("continuation_equal", f"gpclone:{kind}:{what}:model={model}:template={p['template']}",
                   {"restore_point_k": k, "first_difference_at_call": d, "calls_after_restore": d - idx,
                    "uninterrupted": e1, "restored": e2, "restored_model_params_vs_snapshot": pt.get("params"),
